@@ -2149,7 +2149,8 @@ class AstEval:
         if isinstance(lhs, (ast.Tuple, ast.List)):
             for lhs_elt in lhs.elts:
                 if isinstance(lhs_elt, ast.Starred):
-                    names.add(lhs_elt.value.id)
+                    # the starred target can be any target ("*d[0]", "*obj.attr"), not only a name
+                    names = names.union(await self.get_target_names(lhs_elt.value))
                 else:
                     names = names.union(await self.get_target_names(lhs_elt))
         elif isinstance(lhs, ast.Attribute):
